@@ -914,8 +914,11 @@ def _make_exprlike_fst(  # TODO: this needs a refactor, cleanup and simplificati
         ):  # veeery special case "3.__abs__()" -> "(3).__abs__()"
             return True
 
-        if not self._is_enclosed_in_parents(field) and not put_fst._is_enclosed_or_line(check_pars=adding):
-            return True
+        if not self._is_enclosed_in_parents(field):
+            enc_fst = put_ast.value.f if put_is_star and not adding else put_fst  # the pars which may be removed from a Starred are those of its child value, so that is what must be enclosed without them
+
+            if not enc_fst._is_enclosed_or_line(check_pars=adding):
+                return True
 
         if put_ast.__class__ is Lambda:  # Lambda inside FormattedValue/Interpolation needs pars
             s = self
